@@ -546,3 +546,29 @@ func genScenario(prop string) func(t *rapid.T) *Scenario {
 		return sc
 	}
 }
+
+// genHugeScenario: a target with more leaves than any internal bound one might think of (65536, ...), one or two
+// subscribers that stall at once, writers that need the tree's write lock meanwhile (new leaf, delete, Reset).
+// Few steps: every step of such a case costs a walk over the whole target.
+func genHugeScenario(t *rapid.T) *Scenario {
+	sc := &Scenario{Targets: 1, TimeoutSec: 10}
+	sc.EventDriven = rapid.Bool().Draw(t, "eventdriven")
+	n := rapid.SampledFrom([]int{65530, 65537, 70000}).Draw(t, "leaves")
+	sc.Steps = append(sc.Steps, Step{Kind: "w", W: &WOp{Kind: "noti", T: 0, Bulk: &Bulk{Start: 0, N: n, V: 1}}})
+	nsubs := rapid.IntRange(1, 2).Draw(t, "nsubs")
+	for i := 0; i < nsubs; i++ {
+		sc.Subs = append(sc.Subs, SubSpec{Mode: "stream", Target: rapid.IntRange(-1, 0).Draw(t, "target"), Gated: i == 0 || rapid.Bool().Draw(t, "gated"), Paths: []PathSpec{{}}})
+		sc.Steps = append(sc.Steps, Step{Kind: "start", Sub: i})
+	}
+	switch rapid.IntRange(0, 2).Draw(t, "writer") {
+	case 0:
+		sc.Steps = append(sc.Steps, Step{Kind: "w", W: &WOp{Kind: "noti", T: 0, Updates: []Upd{{Path: []gn.Elem{{Name: "new"}}, Val: gn.Val{Kind: "int", I: 1}}}}})
+	case 1:
+		sc.Steps = append(sc.Steps, Step{Kind: "w", W: &WOp{Kind: "noti", T: 0, Deletes: [][]gn.Elem{{{Name: "k7"}}}}})
+	default:
+		sc.Steps = append(sc.Steps, Step{Kind: "w", W: &WOp{Kind: "reset", T: 0}})
+	}
+	sc.Steps = append(sc.Steps, Step{Kind: "grant", Sub: 0, N: rapid.SampledFrom([]int{1, 50}).Draw(t, "credits")})
+	sc.Steps = append(sc.Steps, Step{Kind: "sleep", N: rapid.SampledFrom([]int{1, 11}).Draw(t, "secs")})
+	return sc
+}
